@@ -193,10 +193,9 @@ Proof.
   intros Hi. unfold is_char_boundary.
   destruct (i =? 0) eqn:E0. { apply Z.eqb_eq in E0. subst. intros _. unfold zlen. lia. }
   destruct (i <? 0) eqn:En; [discriminate|].
-  destruct (nth_error s (Z.to_nat i)) eqn:En2.
-  - intros _. assert (Hlt : (Z.to_nat i < List.length s)%nat) by (apply nth_error_Some; rewrite En2; discriminate).
-    unfold zlen. lia.
+  destruct (zlen s <=? i) eqn:El.
   - intros H. apply Z.eqb_eq in H. lia.
+  - intros _. apply Z.leb_gt in El. lia.
 Qed.
 
 (* &s[start..end] after `start <= end`, `is_char_boundary(start)`, `is_char_boundary(end)` *)
